@@ -148,6 +148,11 @@ def run_ops(ctx, domain_name, pairs, binp=None):
         ctx.account(domain_name, op, impl, model, spec)
 
 
+def bin_name(d):
+    """file name (under .build/bin) of the harness binary a domain runs; coverage mode has instrumented builds of its own"""
+    return d.binary + ("-" + d.tags if d.tags else "") + ("-race" if d.race else "") + ("-cover" if core.COVER else "")
+
+
 def stage_build(ctx, prop):
     """regenerate + prove + audit + build harness (under the shared lock)"""
     ok_all = True
@@ -162,6 +167,11 @@ def stage_build(ctx, prop):
             ctx.proof_breaks.append("lake build driver failed:\n" + out[-3000:])
             ok_all = False
         ctx.obligations = len(prop.theorems)
+        hits = core.scan_sources(([prop.lean_module] if prop.lean_module else []) + list(prop.extra_modules))
+        if hits:
+            ctx.proof_breaks.append("forbidden constructs in the Lean sources (sorry/admit/axiom/native_decide/bv_decide/"
+                                    "implemented_by/unsafe/maxHeartbeats 0): " + "; ".join(hits[:8]))
+            ok_all = False
         if prop.lean_module:
             mods = [prop.lean_module] + list(prop.extra_modules)
             built = []
@@ -189,11 +199,11 @@ def stage_build(ctx, prop):
                             ctx.proof_breaks.append("leanchecker rejected %s: %s" % (m, out))
         built = set()
         for d in prop.domains:
-            name = d.binary + ("-" + d.tags if d.tags else "") + ("-race" if d.race else "")
+            name = bin_name(d)
             if name in built:
                 continue
             built.add(name)
-            ok, se = core.go_build(d.binary, os.path.join(core.BIN, name), tags=d.tags, race=d.race)
+            ok, se = core.go_build(d.binary, os.path.join(core.BIN, name), tags=d.tags, race=d.race, cover=core.COVER)
             if not ok:
                 # a tree that no longer compiles against the harness breaks the tie, nothing else can run
                 ctx.proof_breaks.append("go build of the harness against /repo failed:\n" + se[-3000:])
@@ -203,7 +213,7 @@ def stage_build(ctx, prop):
 
 def stage_corr(ctx, prop, seed_offset=0, scale=1):
     for d in prop.domains:
-        name = d.binary + ("-" + d.tags if d.tags else "") + ("-race" if d.race else "")
+        name = bin_name(d)
         binp = os.path.join(core.BIN, name)
         if not os.path.exists(binp):
             continue
@@ -274,6 +284,17 @@ def finish(ctx, prop):
         "wall_s": round(wall, 2),
         "violations": len(vio_lines),
     }
+    if core.COVERDIR:
+        # opt-in (VERIF_COVER=1 / --cover): what the runs above reached in the files the property is anchored to
+        rep = core.cover_report(prop.id)
+        if rep:
+            ev["coverage"]["anchored_functions"] = [dict(file=x["file"], func=x["func"], percent=x["percent"],
+                                                         statements=x["statements"]) for x in rep.get("anchored_functions", [])]
+            ev["coverage"]["uncovered_blocks"] = ["%s:%s" % (b["file"], b["range"]) for b in rep.get("uncovered_blocks", [])]
+            ev["coverage"]["anchored_coverage"] = {k: rep.get(k) for k in (
+                "anchored_statements", "anchored_statements_covered", "anchored_percent", "uncovered_blocks_total",
+                "functions_never_entered", "files_not_in_profile", "error") if rep.get(k) is not None}
+            core.cover_print(prop.id, rep)
     core.write_json(os.path.join(core.VERIF, "evidence", prop.id + ".json"), ev)
     for l in vio_lines:
         print(l)
@@ -296,6 +317,8 @@ def main_check(prop, tier, seed):
             pass
     ctx = Ctx(prop, tier, seed)
     t0 = time.time()
+    if core.COVER:
+        core.cover_begin(prop.id)
     stage_build(ctx, prop)
     t1 = time.time()
     stage_corr(ctx, prop)
@@ -319,7 +342,7 @@ def main_replay(prop, path):
     ctx = Ctx(prop, "quick", 0)
     stage_build(ctx, prop)
     d = [d for d in prop.domains if d.name == r.get("domain")] or prop.domains
-    name = d[0].binary + ("-" + d[0].tags if d[0].tags else "") + ("-race" if d[0].race else "")
+    name = bin_name(d[0])
     rc, pairs, se = core.run_corr("run", 0, 0, "quick", corr_bin=os.path.join(core.BIN, name), stdin_ops=r["op"] + "\n")
     res = core.run_driver([p[0] for p in pairs])
     bad = 0
@@ -337,7 +360,11 @@ def cli():
     ap.add_argument("prop")
     ap.add_argument("--tier", default=os.environ.get("VERIF_TIER", "quick"), choices=["quick", "thorough"])
     ap.add_argument("--replay")
+    ap.add_argument("--cover", action="store_true",
+                    help="also measure the statement coverage the runs reach in the property's anchored files (same as VERIF_COVER=1)")
     a = ap.parse_args()
+    if a.cover:
+        core.COVER = True
     seed = int(os.environ.get("VERIF_SEED", "1") or 1)
     if a.prop not in props.PROPS:
         print("unknown property", a.prop, file=sys.stderr)
